@@ -62,6 +62,25 @@ def check_artefact(ctx, a, stats):
             else:
                 xtol = 2e-5
                 stats["worst_xpoint_dist_spline"] = max(stats.get("worst_xpoint_dist_spline", 0.0), d)
+            # only a corner whose radial index is that X-point's separatrix is legitimately
+            # pinned: psi at the X-point must be the psi-grid value of the corner's index
+            # (tolerance: psi error of a critical point located to xpoint_refine_atol, cf. C03)
+            want_psi = float(reg["psi_vals"][2 * i])
+            psix = float(ref.psi(Rx, Zx))
+            hRR, hZZ, hRZ = ref.hess(Rx, Zx)
+            lam = float(np.abs(np.linalg.eigvalsh(np.array([[float(hRR), float(hRZ)], [float(hRZ), float(hZZ)]]))).min())
+            xat = float(side["eq"]["user_options"].get("xpoint_refine_atol", 1e-6))
+            ptol = 4 * Rx**2 * xat / (2 * lam) + 5 * atol * max(1.0, abs(want_psi))
+            if opts.get("psi_interpolation_method", "spline") == "dct":
+                ptol = max(ptol, 3e-4 * gu.psi_scale(a))
+            ctx.setmax("worst_pinned_corner_psi_mismatch_over_tol", abs(psix - want_psi) / ptol)
+            if abs(psix - want_psi) > ptol:
+                ctx.violation(
+                    "corner pinned to an X-point whose psi is not the psi of the corner's radial index",
+                    dict(config=a.config["label"], region=reg["name"], corner=[i, j], psi_xpoint=psix,
+                         psi_of_index=want_psi, tol=ptol),
+                    replay=dict(config=a.config),
+                )
             if d > xtol:
                 ctx.violation(
                     "pinned corner is not at the X-point",
